@@ -610,7 +610,7 @@ func init() {
 			c.R.Rule = "IF is read and cleared through the Mapper after every machine cycle, so the exact cycle of every VBlank/STAT request of the real PPU is observed and compared with the reference: VBlank exactly in the cycle LY becomes 144; STAT exactly at the rising edge of the single enabled source (mode 0 entry / LY becomes 144 / LY becomes n for n in 0..143 / LY becomes LYC); nothing while the LCD is off; each STAT source x LYC values x 3 frames, plus LCD off (1 and 300 cycles) and on again at every cycle of lines 0, 1, 143, 144, 153 (thorough: every cycle of a frame), each tried from a snapshot; and at every such cycle one write to each of 13 registers that must not move a request (LY, LCDC keeping bit 7, scroll, window, palettes, DMA, LYC and STAT rewritten with the values they already hold): nothing may be requested by the write and every following request must stay in place"
 			c.R.Assumptions = []string{"OAM source at line 144, and whatever is requested in the cycle the LCD is switched on, are not judged", "several STAT sources at once (STAT blocking) are outside the statement"}
 		}
-		explore.Product(c.R, "requests", explore.PartOpt{Bound: "3 frames per configuration", Domain: "sources {none,hblank,vblank,oam,lyc} x LYC 0-153, 154, 200, 255 (lyc) / {0,1,77,142-145,152,153,255} (others; thorough: 0-3, 13, 45, 77, 109, 140-155, 255), with empty OAM, with 10 / 40 objects on one line, and with the LCD debugging option; off/on schedules; unrelated register writes"},
+		explore.Product(c.R, "requests", explore.PartOpt{Bound: "3 frames per configuration", Domain: "sources {none,hblank,vblank,oam,lyc} x LYC 0-153, 154, 200, 255 (lyc) / {0,1,77,142-145,152,153,255} (others; thorough: 0-3, 77, 140-145, 152-155, 255), with empty OAM, with 10 / 40 objects on one line, and with the LCD debugging option; off/on schedules; unrelated register writes"},
 			func(yield func(c14Case) bool) {
 				for _, src := range []string{"none", "hblank", "vblank", "oam", "lyc"} {
 					// LYC is none of the other sources' business: they see every value next to the lines where something of
@@ -626,7 +626,7 @@ func init() {
 					if c.Thorough() && src != "lyc" {
 						lycs = nil
 						for i := 0; i <= 155; i++ {
-							if i < 4 || i >= 140 || i%32 == 13 {
+							if i < 4 || (i >= 140 && i <= 145) || i >= 152 || i == 77 {
 								lycs = append(lycs, i)
 							}
 						}
